@@ -75,7 +75,7 @@ func (m *MessageCopyFromGenerator) GenerateFields(g *j.Group) {
 		}
 		reset[f.OneOfName] = struct{}{}
 		if f.ParentIsOptionalEmbed {
-			g.Add(j.If(j.Id("obj." + f.ParentIsOptionalEmbedFieldName).Op("!=").Nil()).Block(
+			g.Add(j.If(f.embedParentsExist()).Block(
 				j.Id("obj." + f.OneOfName).Op("=").Nil(),
 			))
 		} else {
@@ -133,12 +133,9 @@ func (f *FieldCopyFromGenerator) nextField(g func(g *j.Group)) *j.Statement {
 		// which needs the embedded parent: it is allocated when there is a value to read,
 		// and nothing has to be read or reset when it does not exist.
 		body := g
-		parent := "obj." + f.ParentIsOptionalEmbedFieldName
 		g = func(g *j.Group) {
-			g.If(j.Id("!v.Null && !v.Unknown && " + parent + " == nil")).Block(
-				j.Id(parent).Op("=").Id("&" + f.ParentIsOptionalEmbedFullType + "{}"),
-			)
-			g.If(j.Id(parent).Op("!=").Nil()).BlockFunc(body)
+			g.If(j.Id("!v.Null && !v.Unknown")).Block(f.embedParentsAllocate())
+			g.If(f.embedParentsExist()).BlockFunc(body)
 		}
 	}
 
@@ -208,9 +205,7 @@ func (f *FieldCopyFromGenerator) genPrimitive() *j.Statement {
 			g.If(j.Id("!v.Null && !v.Unknown")).BlockFunc(func(g *j.Group) {
 				if f.ParentIsOptionalEmbed {
 					// The oneOf holder belongs to the embedded parent
-					g.If(j.Id("obj." + f.ParentIsOptionalEmbedFieldName).Op("==").Nil()).Block(
-						j.Id("obj." + f.ParentIsOptionalEmbedFieldName).Op("=").Id("&" + f.ParentIsOptionalEmbedFullType + "{}"),
-					)
+					g.Add(f.embedParentsAllocate())
 				}
 				g.Id("obj." + f.OneOfName).Op("=").Id("&" + f.i.WithType(f.OneOfType)).Values(j.Dict{
 					j.Id(f.Name): j.Id("t"),
@@ -222,14 +217,12 @@ func (f *FieldCopyFromGenerator) genPrimitive() *j.Statement {
 		if f.ParentIsOptionalEmbed {
 			// If the current value is Null or Unknown, we should not set the parent field, otherwise we will get the default values for all the inner fields.
 			g.If(j.Id("!v.Null && !v.Unknown")).BlockFunc(func(g *j.Group) {
-				g.If(j.Id("obj." + f.ParentIsOptionalEmbedFieldName).Op("==").Nil()).Block(
-					j.Id("obj." + f.ParentIsOptionalEmbedFieldName).Op("=").Id("&" + f.ParentIsOptionalEmbedFullType + "{}"),
-				)
+				g.Add(f.embedParentsAllocate())
 				g.Id("obj." + f.Name).Op("=").Id("t")
 			})
 			// A null or unknown value must still reset what an already allocated parent holds
 			g.If(j.Id("v.Null || v.Unknown")).Block(
-				j.If(j.Id("obj." + f.ParentIsOptionalEmbedFieldName).Op("!=").Nil()).Block(
+				j.If(f.embedParentsExist()).Block(
 					j.Id("obj." + f.Name).Op("=").Id("t"),
 				),
 			)
@@ -371,11 +364,8 @@ func (f *FieldCopyFromGenerator) genObjectListOrMap() *j.Statement {
 func (f *FieldCopyFromGenerator) genCustom() *j.Statement {
 	if f.ParentIsOptionalEmbed {
 		// The hook is given the address of the field, which needs the embedded parent
-		parent := "obj." + f.ParentIsOptionalEmbedFieldName
 		return j.Block(
-			j.If(j.Id(parent).Op("==").Nil()).Block(
-				j.Id(parent).Op("=").Id("&"+f.ParentIsOptionalEmbedFullType+"{}"),
-			),
+			f.embedParentsAllocate(),
 			f.genCustomCall(),
 		)
 	}
